@@ -9,7 +9,7 @@
    floor(log2(255/rest)) and whatever float log2 returns); `post D raw` =
    simplification followed by the filter d < D; `sumq` = sum of n / 2^d. *)
 From Coq Require Import ZArith QArith Qabs List Bool.
-From NQ Require Import Num.Angle Proofs.AngleProofs Proofs.AngleWitness.
+From NQ Require Import Num.Angle Proofs.AngleProofs Proofs.AngleWitness Proofs.AngleFloatProofs.
 From Gen Require Import Gen_Angle.
 Import ListNotations.
 Open Scope Q_scope.
@@ -118,10 +118,102 @@ Definition C19_radians_full : Prop :=
    either: the float front end (angle % 2pi, / pi, tol / pi) contributes up to
    about 1.1e-15 rad that no choice of steps removes.  What is proved is
    C19_spec_all_correct + C19_within_tol_radians: the statement relative to the
-   front end's outputs (rest, thr).  Missing for the full statement:
-   |rest * pi - angle mod 2 pi| and thr * pi - tol, which the check measures
-   against 80-digit arithmetic on every run (evidence: coverage.front_end) and
-   for which the oracle allows 2^-49 rad. *)
+   front end's outputs (rest, thr), and C19_radians_partial below: the full
+   statement with the allowance 2^-49 under a per-input hypothesis on the front
+   end that is decided by computation for every generated case.  Missing for
+   the full statement: a proof that the float front end stays within 2^-49 rad
+   for ALL doubles within two turns (and the 2^-49 itself: a float front end
+   cannot meet tol exactly). *)
+
+(* The front-end error as a theorem parameter: if rest half turns are within fe
+   radians of `target` and thr * p exceeds tol by at most te, the emitted
+   rotation is within tol + te + fe of `target`. *)
+Theorem C19_radians_with_front_end : forall D thr rest raw rf out tol p target fe te,
+  0 <= rest -> rest < 2 -> steps thr rest raw rf -> post D raw = Some out ->
+  pow2 (8 - D) <= thr -> 0 <= p ->
+  Qabs (rest * p - target) <= fe -> thr * p <= tol + te ->
+  Qabs (sumq out * p - target) <= tol + te + fe.
+Proof. exact radians_with_front_end. Qed.
+
+(* C19_radians_full with the allowance FE_ALLOW = 2^-49 and under the per-input
+   hypothesis `fe_ok angle tol rest thr k` (front-end error plus threshold excess
+   at most 2^-49 at both rational bounds of pi, k whole turns removed): for
+   EVERY p between PI_LO and PI_HI, every output the model allows is within
+   tol + 2^-49 radians of angle - 2 k p.
+   _partial: fe_ok is not proved for all doubles; it is DECIDED by vm_compute for
+   every case of the correspondence stream on every run (AngleCheck.check_fcase,
+   bit 4; together with: the rational front end equals the PrimFloat front end
+   equals the values observed inside the implementation, bits 1 and 2; rest in
+   [0,2), thr >= 2^-248, bit 8).  Beyond two turns it fails: recorded finding. *)
+Theorem C19_radians_partial : forall angle tol rest thr outs out k p,
+  front angle tol = Some (rest, thr) -> 0 <= rest -> rest < 2 -> pow2 (8 - D_FIELD) <= thr ->
+  spec_all angle tol = Some outs -> In (Some out) outs ->
+  fe_ok angle tol rest thr k = true ->
+  PI_LO <= p -> p <= PI_HI ->
+  Qabs ((sumq out + 2 * inject_Z k) * p - angle) <= tol + FE_ALLOW.
+Proof. exact radians_checked. Qed.
+
+(* The rational model of binary64 round-to-nearest-even used by the front end
+   has relative error at most 2^-53 (normal range) ... *)
+Theorem C19_rne53_half_ulp : forall q r, rne53 q = Some r -> Qabs (r - q) <= Qabs q * pow2 (-53).
+Proof. exact rne53_spec. Qed.
+
+(* ... hence, for EVERY angle in [0, 2*np.pi) and every 2^-240 <= tol <= 1 (all
+   rationals, in particular all such doubles) the front end meets the hypotheses
+   of the theorems above (rest in [0,2), thr >= 2^-248) and its error, threshold
+   excess included, is at most 2^-49 rad: 2*2^-53*pi for the division, 2*(pi - np.pi),
+   (1+2^-53)*pi/np.pi - 1 for tol/np.pi.  k = 1 exactly when `if rest >= 2` fired. *)
+Theorem C19_front_first_turn : forall angle tol rest thr,
+  0 <= angle -> angle < 2 * PI_D -> pow2 (-240) <= tol -> tol <= 1 ->
+  front angle tol = Some (rest, thr) ->
+  0 <= rest /\ rest < 2 /\ pow2 (8 - D_FIELD) <= thr /\
+  exists k, (k = 0 \/ k = 1)%Z /\
+    forall p, PI_LO <= p -> p <= PI_HI -> fe_at angle tol rest thr k p <= FE_ALLOW.
+Proof. exact front_first_turn. Qed.
+
+(* C19_radians_full with the allowance 2^-49, WITHOUT per-input hypothesis, for
+   the input class 0 <= angle < 2*np.pi, 2^-240 <= tol <= 1.
+   _partial only in: (i) the class (negative angles and further turns are covered by
+   C19_radians_partial with the checked hypothesis; large angles are the finding),
+   (ii) the allowance 2^-49 rad, (iii) the front end is the rational model
+   Angle.front, whose equality with the PrimFloat operations and with the values
+   observed inside the implementation is checked on every case of every run,
+   not proved (PrimFloat's specification axioms are deliberately not imported). *)
+Theorem C19_radians_first_turn_partial : forall angle tol rest thr outs out,
+  0 <= angle -> angle < 2 * PI_D -> pow2 (-240) <= tol -> tol <= 1 ->
+  front angle tol = Some (rest, thr) -> spec_all angle tol = Some outs -> In (Some out) outs ->
+  exists k, (k = 0 \/ k = 1)%Z /\
+    forall p, PI_LO <= p -> p <= PI_HI ->
+      Qabs ((sumq out + 2 * inject_Z k) * p - angle) <= tol + FE_ALLOW.
+Proof. exact radians_first_turn. Qed.
+
+(* its hypotheses hold for the doubles angle = 0.3, tol = 1e-4 (k = 0), and for
+   angle = -1.0 with k = -1 *)
+Example C19_radians_partial_nonvacuous :
+  (exists rest thr outs out,
+     front (5404319552844595 # 18014398509481984) (7378697629483821 # 73786976294838206464) = Some (rest, thr) /\
+     Qle_bool 0 rest && negb (Qle_bool 2 rest) && Qle_bool (pow2 (8 - D_FIELD)) thr = true /\
+     spec_all (5404319552844595 # 18014398509481984) (7378697629483821 # 73786976294838206464) = Some outs /\
+     In (Some out) outs /\ List.length out = 2%nat /\
+     fe_ok (5404319552844595 # 18014398509481984) (7378697629483821 # 73786976294838206464) rest thr 0 = true) /\
+  (exists rest thr,
+     front (-1 # 1) (7378697629483821 # 73786976294838206464) = Some (rest, thr) /\
+     fe_turns (-1 # 1) (7378697629483821 # 73786976294838206464) rest thr = Some (-1)%Z).
+Proof.
+  split.
+  - destruct (front (5404319552844595 # 18014398509481984) (7378697629483821 # 73786976294838206464)) as [[rest thr]|] eqn:F;
+      [| vm_compute in F; discriminate F].
+    destruct (spec_all (5404319552844595 # 18014398509481984) (7378697629483821 # 73786976294838206464)) as [outs|] eqn:S;
+      [| vm_compute in S; discriminate S].
+    exists rest, thr, outs. vm_compute in F. injection F as F1 F2. subst rest thr.
+    vm_compute in S. injection S as S. subst outs. eexists.
+    split; [reflexivity|]. split; [vm_compute; reflexivity|]. split; [reflexivity|].
+    split; [left; reflexivity|]. split; vm_compute; reflexivity.
+  - destruct (front (-1 # 1) (7378697629483821 # 73786976294838206464)) as [[rest thr]|] eqn:F;
+      [| vm_compute in F; discriminate F].
+    exists rest, thr. vm_compute in F. injection F as F1 F2. subst rest thr.
+    split; [reflexivity|]. vm_compute. reflexivity.
+Qed.
 
 (* ---- where the code (as found) failed the property: witnesses by computation *)
 
@@ -197,6 +289,11 @@ Print Assumptions C19_terminates.
 Print Assumptions C19_spec_all_correct.
 Print Assumptions C19_spec_exact_defined.
 Print Assumptions C19_within_tol_radians.
+Print Assumptions C19_radians_with_front_end.
+Print Assumptions C19_radians_partial.
+Print Assumptions C19_rne53_half_ulp.
+Print Assumptions C19_front_first_turn.
+Print Assumptions C19_radians_first_turn_partial.
 Print Assumptions C19_old_threshold_refuted.
 Print Assumptions C19_old_filter_refuted.
 Print Assumptions C19_rest_two_refuted.
